@@ -481,9 +481,15 @@ def Coll.tryDeallocateArray (cfg : Cfg) (c : Coll) (a count size : Nat) : PRes C
   else let r := c.deallocateArray cfg a count size
     match r.out with | .done => ⟨r.st, .bool true, []⟩ | _ => r
 
-/-- `reserve(node_size, capacity)`: note that the reserved memory is **not** inserted into the list -/
+/-- `reserve(node_size, capacity)` (with the D34 repair: the reserved memory is inserted into the list) -/
 def Coll.reserveOp (cfg : Cfg) (c : Coll) (size capacity : Nat) (env : List (Option Nat)) : PRes Coll :=
-  (c.reserve cfg (c.listIndex size) capacity env).1
+  let i := c.listIndex size
+  match c.lists[i]? with
+  | none => ⟨c, .crash, []⟩
+  | some l =>
+    -- (D34 repair) room for at least one node, then the reserved block goes onto the free list: the same two steps as
+    -- the refill of an empty bucket
+    c.refill cfg i (growCapacity l 64 capacity) env
 
 def Coll.poolCapacityLeft (c : Coll) (size : Nat) : Nat := ((c.lists[c.listIndex size]?).map AnyList.capacity).getD 0
 
